@@ -28,6 +28,11 @@ pub struct GSpec {
     /// the form √2^p e^{ikπ/4}, e.g. 3 or 1+2i
     #[serde(default = "one4")]
     pub int_factor: [i64; 4],
+    /// holes[i] = number of throw-away vertices created (with a phase and an edge) right before
+    /// vertex i and removed again once the graph is complete, so that the vertex numbering of
+    /// the built graph has gaps.  Empty = none.
+    #[serde(default)]
+    pub holes: Vec<u8>,
 }
 
 fn one4() -> [i64; 4] {
@@ -45,6 +50,7 @@ impl GSpec {
             omega_pow: 0,
             one_plus: vec![],
             int_factor: [1, 0, 0, 0],
+            holes: vec![],
         }
     }
     pub fn add(&mut self, ty: Ty, num: i64, den: i64) -> usize {
@@ -97,6 +103,11 @@ impl GSpec {
     /// Disjoint union (appends `o`, shifting its ids).
     pub fn union(&mut self, o: &GSpec) {
         let off = self.verts.len();
+        if !self.holes.is_empty() || !o.holes.is_empty() {
+            self.holes.resize(off, 0);
+            self.holes.extend(o.holes.iter().cloned());
+            self.holes.resize(off + o.verts.len(), 0);
+        }
         self.verts.extend(o.verts.iter().cloned());
         self.edges
             .extend(o.edges.iter().map(|&(a, b, h)| (a + off, b + off, h)));
@@ -116,6 +127,9 @@ impl GSpec {
         let map = |x: usize| if x > v { x - 1 } else { x };
         let mut g = self.clone();
         g.verts.remove(v);
+        if v < g.holes.len() {
+            g.holes.remove(v);
+        }
         g.edges = self
             .edges
             .iter()
@@ -170,11 +184,25 @@ impl GSpec {
         (re, im)
     }
 
+    /// The vertex id that `build` gives to vertex i of the spec (both backends number vertices
+    /// consecutively; the throw-away vertices of `holes` take numbers too).
+    pub fn built_id(&self, i: usize) -> usize {
+        i + self.holes.iter().take(i + 1).map(|&h| h as usize).sum::<usize>()
+    }
+
     /// Build the quizx graph through its public API.
     pub fn build<G: GraphLike>(&self) -> G {
         let mut g = G::new();
         let mut ids = vec![];
-        for &(t, n, d, q, r) in &self.verts {
+        let mut dummies = vec![];
+        for (i, &(t, n, d, q, r)) in self.verts.iter().enumerate() {
+            for _ in 0..self.holes.get(i).copied().unwrap_or(0) {
+                let x = g.add_vertex_with_phase(VType::Z, Rational64::new(1, 4));
+                if let Some(&prev) = ids.last() {
+                    g.add_edge_with_type(x, prev, EType::H);
+                }
+                dummies.push(x);
+            }
             let v = g.add_vertex_with_phase(GSpec::vtype(t), Rational64::new(n, d));
             g.set_qubit(v, q);
             g.set_row(v, r);
@@ -182,6 +210,12 @@ impl GSpec {
         }
         for &(a, b, h) in &self.edges {
             g.add_edge_with_type(ids[a], ids[b], if h { EType::H } else { EType::N });
+        }
+        for x in dummies {
+            g.remove_vertex(x);
+        }
+        for (i, &v) in ids.iter().enumerate() {
+            assert_eq!(v, self.built_id(i), "vertex numbering of the backend is not consecutive");
         }
         g.set_inputs(self.inputs.iter().map(|&i| ids[i]).collect());
         g.set_outputs(self.outputs.iter().map(|&i| ids[i]).collect());
@@ -522,6 +556,10 @@ pub fn closed_diagram(d: &mut Decider, nmax: usize, tmax: usize) -> (GSpec, &'st
         g.sqrt2_pow = d.range("scal.p", -4, 4) as i32;
         g.omega_pow = d.range("scal.k", 0, 7);
     }
+    // gaps in the vertex numbering in some runs
+    if d.coin("holes", 1, 4) {
+        g.holes = (0..g.verts.len()).map(|_| if d.coin("hole", 1, 3) { 1 + d.choose("hole.k", 2) as u8 } else { 0 }).collect();
+    }
     (g, name)
 }
 
@@ -791,6 +829,9 @@ pub fn json_diagram_sized(d: &mut Decider, large: bool) -> GSpec {
         g.inputs = pi.iter().map(|&i| g.inputs[i]).collect();
         let po = d.permutation("j.operm", g.outputs.len());
         g.outputs = po.iter().map(|&i| g.outputs[i]).collect();
+    }
+    if d.coin("j.holes", 1, 3) {
+        g.holes = (0..g.verts.len()).map(|_| if d.coin("j.hole", 1, 3) { 1 + d.choose("j.hole.k", 2) as u8 } else { 0 }).collect();
     }
     // coordinates (large diagrams always get unique ones: the isomorphism search needs anchors)
     match if large { 5 } else { d.choose("j.coord", 10) } {
